@@ -1100,6 +1100,9 @@ func (ex *Exec) mapFind(st *State, mo *MapObj, key Value) int {
 
 func (ex *Exec) execLookup(st *State, fr *Frame, x *ssa.Lookup) {
 	base := ex.get(fr, x.X)
+	if mv, ok := base.(MapVal); ok {
+		ex.guardCheckMap(st, fr, mv, false)
+	}
 	if s, ok := base.(StrVal); ok {
 		idx := ex.get(fr, x.Index).(*Term)
 		i, sym, ok := ex.indexCheck(st, idx, s.Len(), "string")
@@ -1138,6 +1141,7 @@ func (ex *Exec) execLookup(st *State, fr *Frame, x *ssa.Lookup) {
 
 func (ex *Exec) execMapUpdate(st *State, fr *Frame, x *ssa.MapUpdate) {
 	m := ex.get(fr, x.Map).(MapVal)
+	ex.guardCheckMap(st, fr, m, true)
 	if m.Obj == 0 {
 		ex.runtimePanic(st, "assignment to entry in nil map")
 		return
@@ -1187,6 +1191,7 @@ func (ex *Exec) execRange(st *State, fr *Frame, x *ssa.Range) {
 	case StrVal:
 		rs.str = &b
 	case MapVal:
+		ex.guardCheckMap(st, fr, b, false)
 		if b.Obj != 0 {
 			mo := st.objGet(b.Obj).(*MapObj)
 			n := len(mo.Keys)
